@@ -174,9 +174,20 @@ class TemplateData(object):
         # Do not wire more than once
         if self._is_wired:
             return
-        else:
-            self._is_wired = True
 
+        try:
+            self._wire_all_subsets()
+        except Exception:
+            # A failed attempt must not look like a completed one: drop the
+            # half-built nodes so that a later call starts over (and fails in
+            # the same way) instead of silently presenting a partial structure.
+            for decoded_nodes in self.decoded_nodes_all_subsets:
+                del decoded_nodes[:]
+            raise
+
+        self._is_wired = True
+
+    def _wire_all_subsets(self):
         # For compressed data, the wiring is the same for all subsets.
         n_subsets = 1 if self.is_compressed else self.n_subsets
 
